@@ -50,6 +50,14 @@ CHECKS = {
    text="Bounded exhaustive symbolic check of the HCM stress-strain bookkeeping of the real FKMNonlinearDetector / FKMNonlinearRecorder against an independent scalar implementation of the HCM case analysis (primary branch, Masing secondary branches from the reversal point, Memory 1-3, running strain extremes, pass numbers): every column of recorder.collective and the visited strain values; multi-point series (non-contiguous node ids, proportional loads) give every point its single-point rows; negated loads mirror all stresses and strains.",
    note="Bound: 2 and 4 reversals per period (proper reversal sequences incl. start from zero and junction; everything else is C04), 1..3 points with factors 1/2, 2, 3. Notch law = odd extensions of positive increasing uninterpreted functions (contract stub); concrete replays use an analytic law. Integer loads. The oracle was written from the same reading of the guideline as the code. Multi-point running strain extremes are not compared (decided on the first node; equality per node needs Masing/convexity). C04's open finding region is excluded.",
    design="6 C05"),
+ "C08": dict(
+   text="Symbolic check of the real WoehlerCurve accessor in log-domain arithmetic (every positive quantity is 10**e with e a real symbol, so the power laws are linear arithmetic on exponents): cycles/load mutual inverses across the knee and for k_2 = inf, knee value, slopes k_1 above and k_2 below the endurance limit, non-increasing in load, Miner variants change only k_2 and leave the original untouched, cycles grow with the failure probability, N_90/N_10 = TN and SD_90/SD_10 = TS, group law and identity of transform_to_failure_probability, std <-> scatter range inverses with T = 10**(2 z_0.9 s), array and Series input == scalar calls.",
+   note="SD, ND, TN, TS, load, cycles symbolic in [1e-12, 1e12] (scatter in [1, 1e3]); slopes k_1 in {3,5,7.5}, k_2 in {k_1, 2k_1-1, k_1+2, inf} and failure probabilities concrete; scipy.stats.norm.ppf runs for real. Clauses marked ~ carry a relative tolerance of 1e-9 on the exponent (the code uses fl(-1/k) and the literal 0.39015207303618954). np/pd facades (self-tested). Indexed curves (broadcasting) are C13.",
+   design="6 C08"),
+ "C09": dict(
+   text="Symbolic check of the encodable clauses: P_RAM / P_RAJ component Woehler curves (log domain): calc_N and calc_P mutual inverses in the finite range, continuity at N = 1e3 and at the endurance knee, strictly decreasing, infinite at and below the endurance value; P_RAM damage parameter == sqrt((S_a + k S_m) eps_a E) with the guideline's mean-stress factor and zero for a negative product (sqrt exact); DamageCalculatorPRAM lifetime (sequence repetitions and cycles, infinite-life flag) == literal accumulation of first-pass damage once and second-pass damage repeatedly, half hystereses half, early failure by running sum, for every closed/half x pass pattern up to the bound; gamma_L of the normal / log-normal / blanket load safety accessors == guideline formulas.",
+   note="Claimed in part: compute_beta (root search on |Phi(x)-P_A|), the P_RAJ damage parameter (cos, real powers, Newton) and DamageCalculatorPRAJ are outside. Curve exponents are the constants of three material groups; R_m in {400,600,1200}; x**y in the damage calculator is an arbitrary positive number depending on (x,y) (represented as 1/t, t > 0 fresh); 1..3 (quick) / 1..5 (thorough) hystereses.",
+   design="6 C09"),
 }
 NA = {
  "C06": "subject is convergence/accuracy of scipy Newton/secant iterations on equations with real-exponent powers: no SMT theory for x**y, cos, log or for float iteration convergence; stubbing the power removes the subject",
